@@ -4,19 +4,21 @@ use servlin::Response;
 use std::io::{ErrorKind, Read};
 use svharness::*;
 
-fn ctor(name: &str) -> Option<Response> {
+fn ctor(name: &str, arg: Option<&str>) -> Option<Response> {
+    // constructors that take a text: the case may name it (any ASCII text, control characters included)
+    let text = arg.unwrap_or("/x");
     Some(match name {
         "ok_200" => Response::ok_200(),
         "no_content_204" => Response::no_content_204(),
-        "redirect_301" => Response::redirect_301("/x"),
-        "redirect_303" => Response::redirect_303("/x"),
+        "redirect_301" => Response::redirect_301(text),
+        "redirect_303" => Response::redirect_303(text),
         "unauthorized_401" => Response::unauthorized_401(),
         "forbidden_403" => Response::forbidden_403(),
         "not_found_404" => Response::not_found_404(),
         "method_not_allowed_405" => Response::method_not_allowed_405(&["GET"]),
         "length_required_411" => Response::length_required_411(),
         "payload_too_large_413" => Response::payload_too_large_413(),
-        "unprocessable_entity_422" => Response::unprocessable_entity_422("x"),
+        "unprocessable_entity_422" => Response::unprocessable_entity_422(arg.unwrap_or("x")),
         "too_many_requests_429" => Response::too_many_requests_429(),
         "internal_server_error_500" => Response::internal_server_error_500(),
         "not_implemented_501" => Response::not_implemented_501(),
@@ -208,7 +210,7 @@ fn reqconn_case(bytes: &[u8]) -> String {
 
 fn main() {
     run_lines_marked(|toks| match toks[0] {
-        "ctor" => match ctor(&ascii_of_tok(toks[1])) {
+        "ctor" => match ctor(&ascii_of_tok(toks[1]), toks.get(2).map(|t| ascii_of_tok(t)).as_deref()) {
             None => "unknown".to_string(),
             Some(r) => format!("K {} {}", r.code, u8::from(r.kind == ResponseKind::Normal)),
         },
